@@ -85,7 +85,7 @@ def _record(feats):
     from Bio.Seq import Seq
     from Bio.SeqFeature import SeqFeature, SimpleLocation
     from Bio.SeqRecord import SeqRecord
-    rec = SeqRecord(Seq("ACGT" * 300), id="chr1")
+    rec = SeqRecord(Seq("ACGT" * 300), id="chr1")  # 1200 nt
     for tag, ty, s, e, uid in feats:
         rec.features.append(SeqFeature(SimpleLocation(s, e, strand=1), type=ty,
                                        qualifiers={"locus_tag": [tag], "uid": [str(uid)]}))
@@ -203,6 +203,15 @@ def impl_qual_op(line):
             d = t.dict_()
             r = L["G"].filter_and_sort_qualifiers(d)
             return "ok None" if r is None else "ok " + enc_dict(r.items())
+        if op == "gbiotype":
+            tys = t.list_()
+            feats = [("L0", "gene", 5, 40 + 20 * len(tys), 0)] + [("L0", ty, 10 + 20 * i, 25 + 20 * i, i + 1)
+                                                                for i, ty in enumerate(tys)]
+            p = _parser(_record(feats))
+            with warnings.catch_warnings():
+                warnings.simplefilter("ignore")
+                recs = list(p.parse())
+            return "ok " + enc(recs[0].annotation.genes[0].gene_type.name)
         if op == "ltgroup":
             return _ltgroup(t)
         if op == "gbperm":
